@@ -240,7 +240,7 @@ pub fn parse(tier: usize, seed: u64, out: &mut Out) {
     }
     // PGN texts
     let mut bases: Vec<(String, String)> = Vec::new();
-    let mut names: Vec<String> = std::fs::read_dir(EXAMPLES_DIR)
+    let mut names: Vec<String> = std::fs::read_dir(examples_dir())
         .map(|d| d.filter_map(|e| e.ok()).map(|e| e.path().to_string_lossy().to_string()).collect())
         .unwrap_or_default();
     names.sort();
